@@ -141,9 +141,13 @@ func (w *World) rec(t int, ev string, op Op, res Res) Rec {
 		res.Seq = []int{}
 	}
 	kd := []int{}
-	if h, ok := w.H[op.H]; ok && h.Kind == "M" && h.Dig != nil && op.K.ID != 0 {
-		v := h.Dig.Vec(op.K.ID)
-		kd = []int{int(v[0]), int(v[1]), int(v[2]), int(v[3])}
+	if h, ok := w.H[op.H]; ok && h.Kind == "M" && op.K.ID != 0 {
+		if h.Dig != nil {
+			v := h.Dig.Vec(op.K.ID)
+			kd = []int{int(v[0]), int(v[1]), int(v[2]), int(v[3])}
+		} else {
+			kd = []int{0, 0, 0, 0}
+		}
 	}
 	hv := 0
 	if h, ok := w.H[op.H]; ok {
